@@ -29,18 +29,18 @@ type Defect struct {
 }
 
 type SSOCase struct {
-	Spec         world.Spec       `json:"spec"`
-	Host         string           `json:"host"`
-	SP           int              `json:"sp"` // index into Spec.SPs of the SP that sends the request
-	Req          spsim.AuthnReq   `json:"req"`
-	Style        spsim.XMLStyle   `json:"style"`
-	Sign         spsim.Signing    `json:"sign"`
-	RSign        *spsim.Signing   `json:"redirect_sign,omitempty"`
-	Tr           spsim.Transport  `json:"transport"`
-	Defects      []Defect         `json:"defects,omitempty"`
-	PersistFault bool             `json:"persist_fault,omitempty"`
-	Headers      [][2]string      `json:"headers,omitempty"`
-	Note         string           `json:"note,omitempty"`
+	Spec         world.Spec      `json:"spec"`
+	Host         string          `json:"host"`
+	SP           int             `json:"sp"` // index into Spec.SPs of the SP that sends the request
+	Req          spsim.AuthnReq  `json:"req"`
+	Style        spsim.XMLStyle  `json:"style"`
+	Sign         spsim.Signing   `json:"sign"`
+	RSign        *spsim.Signing  `json:"redirect_sign,omitempty"`
+	Tr           spsim.Transport `json:"transport"`
+	Defects      []Defect        `json:"defects,omitempty"`
+	PersistFault bool            `json:"persist_fault,omitempty"`
+	Headers      [][2]string     `json:"headers,omitempty"`
+	Note         string          `json:"note,omitempty"`
 }
 
 func (c SSOCase) hasDefect(name string) bool {
@@ -308,22 +308,24 @@ func ssoRender(c SSOCase, now time.Time) (obs.HTTPReq, *spsim.Signed, error) {
 // ---- independent evaluation of what was sent ----
 
 type Sent struct {
-	InQuery     bool // the message parameter travelled in the URL query
-	Ambiguous   []string
-	Params      map[string]string
-	XML         []byte
-	Doc         *xt.Doc
-	Violated    []string // validity conditions of C06 that the message violates (must be rejected)
-	Unasserted  []string // conditions on which the statement is silent / boundaries
-	Issuer      string
-	IssuerSP    int // index into spec.SPs, -1 none
-	ID          string
-	HasDSig     bool
+	InQuery         bool // the message parameter travelled in the URL query
+	Ambiguous       []string
+	Params          map[string]string
+	XML             []byte
+	Doc             *xt.Doc
+	Violated        []string // validity conditions of C06 that the message violates (must be rejected)
+	Unasserted      []string // conditions on which the statement is silent / boundaries
+	Issuer          string
+	IssuerSP        int // index into spec.SPs, -1 none
+	ID              string
+	HasDSig         bool
 	ProtocolBinding string
 }
 
-func (s *Sent) violated(f string, a ...any)   { s.Violated = append(s.Violated, fmt.Sprintf(f, a...)) }
-func (s *Sent) unasserted(f string, a ...any) { s.Unasserted = append(s.Unasserted, fmt.Sprintf(f, a...)) }
+func (s *Sent) violated(f string, a ...any) { s.Violated = append(s.Violated, fmt.Sprintf(f, a...)) }
+func (s *Sent) unasserted(f string, a ...any) {
+	s.Unasserted = append(s.Unasserted, fmt.Sprintf(f, a...))
+}
 
 func pctDecode(s string) (string, bool) {
 	var b strings.Builder
@@ -344,7 +346,9 @@ func pctDecode(s string) (string, bool) {
 	return b.String(), true
 }
 
-func isHex(c byte) bool { return (c >= '0' && c <= '9') || (c >= 'a' && c <= 'f') || (c >= 'A' && c <= 'F') }
+func isHex(c byte) bool {
+	return (c >= '0' && c <= '9') || (c >= 'a' && c <= 'f') || (c >= 'A' && c <= 'F')
+}
 func unhex(c byte) byte {
 	switch {
 	case c >= '0' && c <= '9':
@@ -379,7 +383,7 @@ func splitParams(raw string) (map[string][]string, bool) {
 }
 
 var (
-	reDateTimeZ   = regexp.MustCompile(`^(\d{4})-(\d{2})-(\d{2})T(\d{2}):(\d{2}):(\d{2})(\.\d+)?Z$`)
+	reDateTimeZ = regexp.MustCompile(`^(\d{4})-(\d{2})-(\d{2})T(\d{2}):(\d{2}):(\d{2})(\.\d+)?Z$`)
 	// other lexical forms of a timestamp on which XML Schema and lenient parsers differ (zone offsets, no zone, comma fractions)
 	reDateTimeAny = regexp.MustCompile(`^-?\d{4,}-\d{2}-\d{2}T\d{2}:\d{2}:\d{2}([.,]\d+)?(Z|[+-]\d{2}:\d{2})?$`)
 )
